@@ -2,7 +2,7 @@
     Statements only; proofs are in Proofs/Coinswap*.v. *)
 From Coq Require Import ZArith List Bool.
 From Canto Require Import Lib.SdkInt Lib.SdkDec Model.Coinswap Proofs.CoinswapBase Proofs.CoinswapEffects
-     Proofs.CoinswapValue Proofs.CoinswapWF Proofs.CoinswapLaws Proofs.CoinswapHistory.
+     Proofs.CoinswapValue Proofs.CoinswapWF Proofs.CoinswapLaws Proofs.CoinswapHistory Proofs.CoinswapReserves.
 Import ListNotations.
 Open Scope Z_scope.
 
@@ -77,6 +77,17 @@ Theorem C01_swap_round_trip :
           0 < RX s q -> st_bal s' (User t) (Tok n) <= st_bal s (User t) (Tok n)).
 Proof. exact swap_round_trip. Qed.
 
+(* a pool with outstanding tokens never has an empty reserve: preserved by every message *)
+Theorem C01_reserves_step :
+  forall (now : Z) (s : state) (o : op),
+         WF s -> reserves_pos s -> reserves_pos (fst (deliver now s o)).
+Proof. exact reserves_step. Qed.
+
+(* ... hence along every history from a state where it holds (genesis has no pool) *)
+Theorem C01_reserves_history :
+  forall (h : list (Z * op)) (s : state), WF s -> reserves_pos s -> reserves_pos (run h s).
+Proof. exact reserves_history. Qed.
+
 (* the well-formedness hypothesis (valid params, non-negative balances and supplies, consistent pool list) holds along every history *)
 Theorem C01_run_WF :
   forall (h : list (Z * op)) (s : state), WF s -> WF (run h s).
@@ -91,4 +102,6 @@ Print Assumptions C01_value_history.
 Print Assumptions C01_remove_ok.
 Print Assumptions C01_add_then_remove.
 Print Assumptions C01_swap_round_trip.
+Print Assumptions C01_reserves_step.
+Print Assumptions C01_reserves_history.
 Print Assumptions C01_run_WF.
